@@ -99,7 +99,8 @@ FINE = {
  "Exponential": [[1, 1024], [3, 1024]],
  "Uniform": [[1, 2, 1024]],
  "Poisson": [[1, 1024], [5, 1024]],
- "Binomial": [[1, 1, 32768], [10, 1, 32768], [10, 32767, 32768], [1000, 1, 32768], [1000, 32767, 32768], [40, 3, 1024]],
+ "Binomial": [[1, 1, 32768], [10, 1, 32768], [10, 32767, 32768], [1000, 1, 32768], [1000, 32767, 32768], [40, 3, 1024],
+              [3000, 39, 4096], [3000, 4057, 4096]],        # thousands of trials, success probability just below 1/100 (and mirrored), n p < 30: inversion
  "Bernoulli": [[1, 32768], [32767, 32768]],
 }
 
